@@ -294,6 +294,22 @@ def _place_ghost(text, sp, bo, bc, loops, ghost_calls, edits, report, n):
         if lp.body_open is None:
             raise InjectError('%s#%d has no block body' % (func, k))
         pos = lp.body_open + 1 if at == 'body-begin' else lp.body_close
+    elif at == 'loop-after':
+        # immediately after the (block) body of loop k: independent of the text of the statements that follow
+        k = sp['loop']
+        if k >= len(loops):
+            raise InjectError('%s has %d loops, wanted #%d' % (func, len(loops), k))
+        lp = loops[k]
+        if lp.body_open is None or text[bo:lp.body_open].rstrip().endswith('do') or re.match(r'\s*while\b', text[lp.body_close + 1:]):
+            raise InjectError('%s#%d: loop-after needs a for/while loop with a block body' % (func, k))
+        pos = lp.body_close + 1
+    elif at in ('before', 'after') and sp.get('anchor_re'):
+        # regular-expression anchor (must match exactly once): identifies the statement without spelling out its operands
+        body = text[bo:bc]
+        ms = list(re.finditer(sp['anchor_re'], body))
+        if len(ms) != 1:
+            raise InjectError('anchor_re %r matches %d times in %s' % (sp['anchor_re'], len(ms), func))
+        pos = bo + (ms[0].start() if at == 'before' else ms[0].end())
     elif at in ('before', 'after'):
         anchor = sp['anchor']
         body = text[bo:bc]
@@ -366,6 +382,11 @@ def inject(text, specs, ghost_calls=(), lenient_loops=False, lenient_ghost=False
                            'loop': sp.get('loop'), 'anchor': sp.get('anchor')})
             continue
         k = sp['loop']
+        if lenient_loops:
+            # witness / bounded fallback / native run: the loops are unwound, loop-contract clauses are not applied there and are
+            # therefore not written into the copy at all (a clause naming a local the changed code no longer has would not compile)
+            report.append({'func': func, 'loop': k, 'dropped': 'loop-contract clauses are not injected in a witness run'})
+            continue
         if k >= len(loops) or ('expect' in sp and sp['expect'] not in loops[k].header):
             if lenient_loops:
                 # bounded fallback run: loop-contract clauses have no runtime meaning, they may be dropped
